@@ -446,7 +446,7 @@ def run_kani(root, scratch, harnesses, tier):
         out["undecided"].append(str(e))
         return out
     out["overlay"] = ["%s: %s::%s += %s" % (f, i, fn, "; ".join(a)) for f, i, fn, a in inserted]
-    hto = int(os.environ.get("VERIF_HARNESS_TIMEOUT", "300" if tier == "quick" else "900"))
+    hto = int(os.environ.get("VERIF_HARNESS_TIMEOUT", "300" if tier == "quick" else "2400"))
     cmd = ["cargo", "kani", "-Z", "function-contracts", "-Z", "stubbing", "-Z", "unstable-options", "--harness-timeout", "%ds" % hto,
            "-j", str(min(NCPU, 12)), "--output-format=terse"]
     for h in harnesses:
@@ -454,7 +454,7 @@ def run_kani(root, scratch, harnesses, tier):
     cmd += ["--exact"]
     out["cmd"] = "CARGO_NET_OFFLINE=true cargo kani -Z function-contracts -Z stubbing -Z unstable-options --harness-timeout %ds -j %d --output-format=terse %s" % (
         hto, min(NCPU, 12), " ".join("--harness " + h["full"] for h in harnesses) + " --exact")
-    to = 1500 if tier == "quick" else 3600
+    to = 1500 if tier == "quick" else 6000
     rc, so, se, dt = run(cmd, cwd=repo, env={"CARGO_TARGET_DIR": os.path.join(scratch.dir, "target-kani")}, timeout=to)
     out["time_s"] = round(dt, 2)
     allout = so + "\n" + se
